@@ -50,6 +50,7 @@ Inductive pv :=
 
 Fixpoint ustr_of_string (s : String.string) : ustr :=
   match s with String.EmptyString => [] | String.String c r => Ascii.N_of_ascii c :: ustr_of_string r end.
+Arguments ustr_of_string : simpl never.
 Notation "'U' s" := (ustr_of_string s%string) (at level 1, only parsing).
 
 Fixpoint ustr_eqb (a b : ustr) : bool :=
